@@ -32,7 +32,7 @@ fn leaf_value(leaf: &str, rng: &mut Rng) -> (DynVal, DynType) {
         "bearer" => (DynVal::Bearer("abc.def=".parse().unwrap()), DynType::Bearer),
         "safelong" => (DynVal::SafeLong(conjure_object::SafeLong::new(*rng.pick(&[0, -9007199254740991, 9007199254740991])).unwrap()), DynType::SafeLong),
         "datetime" => (DynVal::DateTime("2017-01-02T03:04:05.000000006Z".parse().unwrap()), DynType::DateTime),
-        "doublekey" => (DynVal::DoubleKey(conjure_object::DoubleKey(*rng.pick(&[1.5, f64::NAN, f64::INFINITY]))), DynType::DoubleKey),
+        "doublekey" => (DynVal::DoubleKey(conjure_object::DoubleKey(*rng.pick(&[1.5, f64::NAN, f64::INFINITY, 0.1, -1e300, 5e-324, 16777217.0]))), DynType::DoubleKey),
         "struct" => (
             DynVal::Struct(vec![("a", DynVal::I32(1)), ("b", DynVal::Str("x".into()))]),
             DynType::Struct(vec![("a", DynType::I32), ("b", DynType::Str)]),
@@ -194,6 +194,44 @@ fn res(r: Result<DynVal, String>, orig: &DynVal) -> Value {
     }
 }
 
+// the convenience functions (`json::server_from_reader::<T>(..)` ...) need a static `T: DeserializeOwned`: `TlDyn` reads its shape
+// from a thread-local that the caller sets just before the call.
+thread_local! {
+    static CURRENT_TYPE: std::cell::RefCell<Option<DynType>> = const { std::cell::RefCell::new(None) };
+}
+struct TlDyn(DynVal);
+impl<'de> serde::Deserialize<'de> for TlDyn {
+    fn deserialize<D: serde::Deserializer<'de>>(d: D) -> Result<TlDyn, D::Error> {
+        let ty = CURRENT_TYPE.with(|c| c.borrow().clone()).expect("harness: CURRENT_TYPE not set");
+        serde::de::DeserializeSeed::deserialize(&ty, d).map(TlDyn)
+    }
+}
+fn fn_entry_points(ty: &DynType, json_text: &str, smile: &[u8], orig: &DynVal, out: &mut serde_json::Map<String, Value>) {
+    use conjure_serde::{json as cj, smile as cs};
+    CURRENT_TYPE.with(|c| *c.borrow_mut() = Some(ty.clone()));
+    let mut put = |name: &str, r: Result<TlDyn, String>| {
+        out.insert(name.to_string(), res(r.map(|v| v.0), orig));
+    };
+    put("json_client_fn_str", cj::client_from_str::<TlDyn>(json_text).map_err(|e| e.to_string()));
+    put("json_client_fn_slice", cj::client_from_slice::<TlDyn>(json_text.as_bytes()).map_err(|e| e.to_string()));
+    put("json_client_fn_reader", cj::client_from_reader::<_, TlDyn>(json_text.as_bytes()).map_err(|e| e.to_string()));
+    put("json_server_fn_str", cj::server_from_str::<TlDyn>(json_text).map_err(|e| e.to_string()));
+    put("json_server_fn_slice", cj::server_from_slice::<TlDyn>(json_text.as_bytes()).map_err(|e| e.to_string()));
+    put("json_server_fn_reader", cj::server_from_reader::<_, TlDyn>(json_text.as_bytes()).map_err(|e| e.to_string()));
+    put("smile_client_fn_slice", cs::client_from_slice::<TlDyn>(smile).map_err(|e| e.to_string()));
+    put("smile_client_fn_reader", cs::client_from_reader::<_, TlDyn>(smile).map_err(|e| e.to_string()));
+    put("smile_server_fn_slice", cs::server_from_slice::<TlDyn>(smile).map_err(|e| e.to_string()));
+    put("smile_server_fn_reader", cs::server_from_reader::<_, TlDyn>(smile).map_err(|e| e.to_string()));
+    {
+        let mut buf = smile.to_vec();
+        put("smile_client_fn_mut_slice", cs::client_from_mut_slice::<TlDyn>(&mut buf).map_err(|e| e.to_string()));
+    }
+    {
+        let mut buf = smile.to_vec();
+        put("smile_server_fn_mut_slice", cs::server_from_mut_slice::<TlDyn>(&mut buf).map_err(|e| e.to_string()));
+    }
+}
+
 fn de_all(ty: &DynType, json_text: &str, smile: &[u8], orig: &DynVal) -> Value {
     use conjure_serde::{json as cj, smile as cs};
     let mut out = serde_json::Map::new();
@@ -222,6 +260,7 @@ fn de_all(ty: &DynType, json_text: &str, smile: &[u8], orig: &DynVal) -> Value {
         let mut buf = smile.to_vec();
         run!("smile_server_mut_slice", cs::ServerDeserializer::from_mut_slice(&mut buf));
     }
+    fn_entry_points(ty, json_text, smile, orig, &mut out);
     Value::Object(out)
 }
 
@@ -370,6 +409,7 @@ fn c05_case(case: &Value) -> Result<Value, String> {
         let mut b = smile.clone();
         run!("smile_server_mut_slice", cs::ServerDeserializer::from_mut_slice(&mut b));
     }
+    fn_entry_points(&ty, &json_text, &smile, &val, &mut out);
     Ok(json!({"doc": json_text, "results": Value::Object(out)}))
 }
 
